@@ -360,15 +360,18 @@ def section_headers(c, chk, ex):
             hs = list(re.finditer(r'%s (\x00cfg_print_quoted\x00 ?|"?%s"? )?\{\n', text))
             if not hs:
                 continue
-            flag = None
-            for cn, t, _ in p.assume:
-                d = pm.describe_cond(cn)
-                if d == 'opt->flags has TITLE':
-                    flag = t
-                elif d == 'not(opt->flags has TITLE)':
-                    flag = not t
             for m in hs:
                 n += 1
+                # the decision in force where this header is written (the flag word is read again after every nested print)
+                k_ = index[m.end() - 1]
+                upto = toks[k_ + 1][-1].seq if k_ + 1 < len(toks) else len(p.assume)       # whatever is written next: the title decision lies before it
+                flag = None
+                for cn, t, _ in p.assume[:upto]:
+                    d = pm.describe_cond(cn)
+                    if d == 'opt->flags has TITLE':
+                        flag = t
+                    elif d == 'not(opt->flags has TITLE)':
+                        flag = not t
                 titled = m.group(1) is not None
                 if flag is None or titled != flag:
                     bad = bad or (f, toks[index[m.start()]], titled, flag)
